@@ -262,8 +262,102 @@ std::string runSvm(std::string const& bytes, unsigned int dims, std::size_t bs, 
 	return observe(data, svmRecordCount(bytes), bs, safetyOnly);
 }
 
-int main(){
+// ---- exporters, then importers (round trip).  Datasets come from a formula shared with the driver:
+// values are dyadic (k/4) so that the printed precision (10 resp. 6 digits) is exact.
+static double rtCell(std::size_t seed, std::size_t e, std::size_t j){ return (double((seed * 7 + e * 3 + j * 5) % 11) - 5) / 4; }
+static unsigned rtLabel(std::size_t seed, std::size_t e){ return unsigned(e % (2 + seed % 2)); }
+static std::string g_tmpdir = "/var/tmp";
+
+inline bool sameLabel(unsigned int a, unsigned int b){ return a == b; }
+template<class A, class B> bool sameLabel(A const& a, B const& b){
+	shark::RealVector x(a), y(b);
+	if(x.size() != y.size()) return false;
+	for(std::size_t i = 0; i != x.size(); ++i) if(x(i) != y(i)) return false;
+	return true;
+}
+template<class D>
+std::string rtCompare(D& orig, D& back, std::size_t maxBatch){
+	std::ostringstream os;
+	bool same = orig.numberOfElements() == back.numberOfElements();
+	if(same){
+		auto a = orig.elements().begin(); auto b = back.elements().begin();
+		for(std::size_t i = 0; i != orig.numberOfElements(); ++i, ++a, ++b){
+			auto ea = *a; auto eb = *b;
+			shark::RealVector ia(ea.input), ib(eb.input);
+			if(ia.size() != ib.size()){ same = false; break; }
+			for(std::size_t j = 0; j != ia.size(); ++j) if(ia(j) != ib(j)) same = false;
+			if(!sameLabel(ea.label, eb.label)) same = false;
+		}
+	}
+	os << (same ? "rt same" : "rt differs") << " elements=" << back.numberOfElements() << " batches=[";
+	for(std::size_t b = 0; b != back.numberOfBatches(); ++b){ if(b) os << ","; os << back.batch(b).size(); }
+	os << "]";
+	if(!same) os << " !oracle roundtrip-differs";
+	if(maxBatch) for(std::size_t b = 0; b != back.numberOfBatches(); ++b)
+		if(back.batch(b).size() > maxBatch){ os << " !oracle batch-larger-than-requested"; break; }
+	return os.str();
+}
+static std::string runRt(std::vector<std::string> const& t){
 	using namespace shark;
+	std::string file = g_tmpdir + "/c19-rt-" + std::to_string((long)getpid()) + ".txt";
+	std::string out = "bad-op";
+	try{
+		if(t[1] == "csv" && t.size() == 10){
+			std::string kind = t[2]; LabelPosition lp = t[3] == "F" ? FIRST_COLUMN : LAST_COLUMN;
+			std::size_t nout = std::stoull(t[4]); char sep = char(std::stoul(t[5]));
+			std::size_t maxB = std::stoull(t[6]), dim = std::stoull(t[7]), seed = std::stoull(t[8]), n = std::stoull(t[9]);
+			std::vector<RealVector> in(n, RealVector(dim)), reg(n, RealVector(nout)); std::vector<unsigned int> lab(n);
+			for(std::size_t e = 0; e != n; ++e){
+				for(std::size_t j = 0; j != dim; ++j) in[e](j) = rtCell(seed, e, j);
+				for(std::size_t j = 0; j != nout; ++j) reg[e](j) = rtCell(seed + 1, e, j);
+				lab[e] = rtLabel(seed, e);
+			}
+			if(kind == "c"){
+				LabeledData<RealVector, unsigned int> orig, back;
+				if(n) orig = createLabeledDataFromRange(in, lab, 3);
+				exportCSV(orig, file, lp, sep);
+				importCSV(back, file, lp, sep, '#', maxB);
+				out = rtCompare(orig, back, maxB);
+			}else if(kind == "r"){
+				LabeledData<RealVector, RealVector> orig, back;
+				if(n) orig = createLabeledDataFromRange(in, reg, 3);
+				exportCSV(orig, file, lp, sep);
+				importCSV(back, file, lp, nout, sep, '#', maxB);
+				out = rtCompare(orig, back, maxB);
+			}
+		}else if(t[1] == "svm" && t.size() == 8){
+			bool sparse = t[2] == "s", cls = t[3] == "c";
+			std::size_t bs = std::stoull(t[4]), dim = std::stoull(t[5]), seed = std::stoull(t[6]), n = std::stoull(t[7]);
+			std::vector<RealVector> in(n, RealVector(dim)), reg(n, RealVector(1)); std::vector<unsigned int> lab(n);
+			for(std::size_t e = 0; e != n; ++e){
+				for(std::size_t j = 0; j != dim; ++j) in[e](j) = rtCell(seed, e, j);
+				reg[e](0) = rtCell(seed + 1, e, 0);
+				lab[e] = rtLabel(seed, e);
+			}
+			if(cls){
+				LabeledData<RealVector, unsigned int> orig, back;
+				if(n) orig = createLabeledDataFromRange(in, lab, 3);
+				exportSparseData(orig, file);
+				importSparseData(back, file, (unsigned int)dim, bs);
+				out = rtCompare(orig, back, bs);
+			}else{
+				LabeledData<RealVector, RealVector> orig, back;
+				if(n) orig = createLabeledDataFromRange(in, reg, 3);
+				{ std::ofstream ofs(file.c_str()); exportSparseData(orig, ofs); }
+				importSparseData(back, file, (unsigned int)dim, bs);
+				out = rtCompare(orig, back, bs);
+			}
+			(void)sparse;
+		}
+	}catch(shark::Exception const&){ out = "rt shark-exception"; }
+	catch(std::exception const& e){ out = std::string("rt std-exception ") + e.what() + " !oracle foreign-exception"; }
+	std::remove(file.c_str());
+	return out;
+}
+
+int main(int argc, char** argv){
+	using namespace shark;
+	if(argc > 1) g_tmpdir = argv[1];
 	std::signal(SIGALRM, onAlarm);
 	std::string line;
 	while(std::getline(std::cin, line)){
@@ -285,6 +379,7 @@ int main(){
 			if( sparse && !cls && !f32) out = runSvm<LabeledData<CompressedRealVector, RealVector> >(bytes, dims, bs, safety);
 			if( sparse && !cls &&  f32) out = runSvm<LabeledData<CompressedFloatVector, FloatVector> >(bytes, dims, bs, safety);
 		}
+		if(t[0] == "rt" && t.size() >= 8) out = runRt(t);
 		if(t[0] == "csv" && t.size() == 10){
 			bool f32 = t[2] == "f32", safety = t[8] == "S";
 			LabelPosition lp = t[3] == "F" ? FIRST_COLUMN : LAST_COLUMN;
